@@ -4,7 +4,7 @@ from vlib import xhex, rnd_bytes
 
 THEOREMS = ["C18_unhex_hex", "C18_hex_unhex", "C18_rejects", "C18_total"]
 RELEASE = True          # debug and release builds of the harness (debug_assert!, overflow checks, cfg(debug_assertions))
-RULE = ("HEX: every byte string of length <= 2 (exhaustive) + seeded random longer ones; UNHEX: every string of "
+RULE = ("HEX: every byte string of length <= 2 (exhaustive) + seeded random longer ones + every length 0..130 and around every power of two up to 4096 (zeros, ones, random, boundary first/last byte); UNHEX: every string of "
         "length <= 3 (quick) / <= 4 (thorough) over the 26-symbol alphabet {0-9 a-f A-F + - space g e-acute euro} + random "
         "strings up to 40 symbols; a case is non-trivial when its line is distinct and it is a HEX case or an UNHEX case "
         "with non-empty input")
@@ -50,6 +50,18 @@ def cases(rng, tier):
             out.append("HEX " + xhex(bytes(t)))
     for _ in range(3000 if tier == "quick" else 300000):
         out.append("HEX " + xhex(rnd_bytes(rng, 300)))
+    # every length up to 130 (word sizes 2/4/8/16/32/64 and their neighbours lie inside), then around every power of two up to 4096:
+    # all-zero, all-ones, random, and random with the first / last byte 0x00, 0x01, 0x0f, 0x10, 0x80, 0xff
+    for n in list(range(0, 131)) + [k + d for k in (256, 512, 1024, 2048, 4096) for d in (-1, 0, 1)]:
+        out.append("HEX " + xhex(bytes(n)))
+        out.append("HEX " + xhex(b"\xff" * n))
+        for _ in range(2 if tier == "quick" else 8):
+            out.append("HEX " + xhex(bytes(rng.randrange(256) for _ in range(n))))
+        if n:
+            for e in (0x00, 0x01, 0x0f, 0x10, 0x80, 0xff):
+                body = bytes(rng.randrange(256) for _ in range(n - 1))
+                out.append("HEX " + xhex(bytes([e]) + body))
+                out.append("HEX " + xhex(body + bytes([e])))
     alpha, maxlen = (ALPHABET, 3) if tier == "quick" else (ALPHABET, 4)
     for n in range(0, maxlen + 1):
         for t in itertools.product(alpha, repeat=n):
